@@ -13,7 +13,7 @@ from common import coq_eval, natl, natll, parse_ints, try_coq
 from gens import atoms_of, base_cells, make_supercell, random_dataset
 from tensors import apply_op, full_basis_tensors, same_span
 
-UNITS = ["IndepGen", "ShapesSpg", "ShapesCoset", "ShapesO1", "ShapesBasis", "ShapesAuxO1", "ShapesReps", "SkelSpg", "SkelBasis", "SkelIdx", "ShapesSumRule", "ShapesPerm", "SkelMat", "SkelPerm", "EigStruct", "ShapesAuxEig", "SkelEig", "ShapesApi", "SkelApi", "SolverStruct", "ShapesSolvers", "SkelSolvers"]
+UNITS = ["IndepGen", "ShapesSpg", "ShapesCoset", "ShapesO1", "ShapesBasis", "ShapesAuxO1", "ShapesReps", "SkelSpg", "SkelBasis", "SkelIdx", "ShapesSumRule", "ShapesPerm", "SkelMat", "SkelPerm", "EigStruct", "ShapesAuxEig", "SkelEig", "ShapesApi", "SkelApi", "SolverStruct", "ShapesSolvers", "SkelSolvers", "Tables", "ShapesCombos", "CutoffGen", "ShapesGeom", "ShapesAuxCut", "SkelCut"]
 PROPS = ["props/C02.v"]
 EXTRA = ["theories/CosetModel.vo"]
 ASSUMPTIONS = ["orthogonality and the group law of the float matrices L r L^-1, the 1e-10 entry drop and spglib's output are assumptions checked numerically",
